@@ -278,7 +278,7 @@ def uriCall : List CtxArg := [
 
 /-- every reference-typed value stored into the document, with the provenance of the value -/
 def docStores : List DocStore := [
-  ⟨"applyMeta", "Examples", "meta.Examples", .registryEntry⟩,
+  ⟨"applyMeta", "Examples", "slices.Clone(meta.Examples)", .fresh⟩,
   ⟨"convert", "Type", "nil", .value⟩,
   ⟨"convertArray", "Type", "[]string{\"array\"}", .fresh⟩,
   ⟨"convertEnum", "Enum", "enumValues", .fresh⟩,
@@ -316,5 +316,8 @@ def docStores : List DocStore := [
   ⟨"toJSONSchemaRegistry", "Defs", "make(map[string]*lib.Schema, len(c.defs))", .fresh⟩,
   ⟨"toJSONSchemaSingle", "Defs", "make(map[string]*lib.Schema, len(c.defs))", .fresh⟩
 ]
+
+/-- every call of a mutating method (Add / Remove / Set… / Store / Delete / …) on anything but the converter and the document -/
+def mutatorCalls : List (String × String × String) := []
 
 end Gozod.Gen.ConvAccess
